@@ -15,7 +15,7 @@ EXPLANATION = (
     "client sends STOP_SENDING(H3_REQUEST_CANCELLED) for responses and trailers. The arithmetic inside len() is trusted.")
 # every anchor of these rules lives in the h3 crate: thorough tier repeats them on the feature-less build
 EXTRA_CONFIGS = ["h3-plain"]
-RULES = "C10-a size accounting (A4/A6); C10-b comparisons and limit provenance (A5/A4/A2), control stream processed before a request is handed out (A2); C10-c defaults and local-limit flow (A4/A11); C10-d outcomes (A3); shared through a proxy: C13-d under C10-c; C13-a (receive mapping) under C10-c"
+RULES = "C10-a size accounting (A4/A6); C10-b comparisons and limit provenance (A5/A4/A2), control stream processed before a request is handed out (A2); C10-c defaults and local-limit flow, both builders store the configured value unconditionally (A4/A11/A2); C10-d outcomes (A3); shared through a proxy: C13-d under C10-c; C13-a (receive mapping) under C10-c"
 
 Q = "h3::qpack::"
 WRITE = "h3::stream::write"
@@ -217,6 +217,19 @@ def run(ctx):
                       "%s builds %s with max_field_section_size = %s; the local limit must be handed on unchanged from the builder's value"
                       % (b.key, s.rv.adt, fl.fmt(o)), fl.fmt(o), b.loc(s))
     ctx.floor("C10-c", "handle constructions carrying the local limit", n, 8)
+    # the limit the application configures is the limit: both builders store the value they are given on every path, whatever it is
+    # (0 means `no field section is acceptable`, it is not `keep the default`)
+    for bk in ("h3::server::builder::Builder::max_field_section_size", "h3::client::builder::Builder::max_field_section_size"):
+        bb_ = ru.need(ctx, "C10-c", bk)
+        if not bb_:
+            continue
+        for p in [p for p in ru.all_paths(ctx, "C10-c", bb_) if p.end == "return"]:
+            st_ = [e for e in p.stores() if pa.vfmt(e[4]).endswith("max_field_section_size")]
+            cond = [t for t in p.tests if expr.mentions(t[3], lambda n_: n_ == ("param", 2, ()))]
+            ctx.check(len(st_) == 1 and st_[0][3] == ("param", 2, ()) and not cond, "C10-c", bk, "the configured value is stored as it is, on every path",
+                      "%s %s: a configured limit is silently replaced or ignored for some values and the endpoint accepts field sections the "
+                      "application excluded" % (bk.rsplit("::", 2)[-3] + " builder", ("stores %s" % [pa.vfmt(e[3])[:40] for e in st_]) if not cond else
+                                                 "decides on the value first (%s)" % cond[0][1][:50]), "", None, p.describe())
     for b, bb, t in prog.callers_of("h3::connection::RequestStream::new"):
         o = fl.Flow(b, prog).origin(t.args[1])
         ok = o[0] == "param" and o[2][-1:] == ("max_field_section_size",)
